@@ -100,9 +100,17 @@ def run_tlc(
     if env:
         e.update({k: str(v) for k, v in env.items()})
     t0 = time.time()
+
+    def _lift_limits():
+        import resource
+
+        soft, hard = resource.getrlimit(resource.RLIMIT_AS)
+        resource.setrlimit(resource.RLIMIT_AS, (hard, hard))
+
     try:
         p = subprocess.run(
-            cmd, cwd=spec_dir, env=e, stdout=subprocess.PIPE, stderr=subprocess.STDOUT, timeout=timeout, text=True
+            cmd, cwd=spec_dir, env=e, stdout=subprocess.PIPE, stderr=subprocess.STDOUT, timeout=timeout, text=True,
+            preexec_fn=_lift_limits,
         )
     except subprocess.TimeoutExpired as exc:
         shutil.rmtree(metadir, ignore_errors=True)
